@@ -2,11 +2,13 @@
 import YorkieModel.Driver.Proto
 import YorkieModel.Driver.TimeEngine
 import YorkieModel.Driver.CrdtEngine
+import YorkieModel.Driver.DocUpdEngine
 open Yorkie.Driver
 
 def engines : List (String × Engine) := [
   ("time", TimeEngine.engine),
-  ("crdt", CrdtEngine.engine)
+  ("crdt", CrdtEngine.engine),
+  ("docupd", DocUpdEngine.engine)
 ]
 
 partial def loop (e : Engine) (h : IO.FS.Stream) (out : IO.FS.Stream) (st : e.State) : IO Unit := do
